@@ -25,7 +25,7 @@ from . import C05
 EXPLANATION = ("Drop order is computed from struct declarations (Rust drops fields in declaration order) with device-shared fields "
                "found by type and by flow of buffers into queue operands; RAII constructor/Drop of the DMA owner are path-enumerated; "
                "unwrap/expect operands are traced back to allocation-capable callees over the resolved call graph.")
-FLOORS = {'constructors': {'*': 10, 'noalloc': 4}, 'driver_structs': {'*': 12, 'noalloc': 4}, 'unwrap_sites_examined': {'*': 25, 'noalloc': 4}}
+FLOORS = {'constructors': {'*': 10, 'noalloc': 4}, 'driver_structs': {'*': 12, 'noalloc': 4}, 'unwrap_sites_examined': {'*': 10, 'noalloc': 2}}
 
 
 def transport_param_fields(F, adt):
